@@ -73,6 +73,7 @@ end
 
 /-- `non_matching_bytes(expr)` as a sorted list of bytes. -/
 def nonMatching (h : Hir) : List Nat :=
-  (List.range 256).filter fun b => !bsMem (matchingSet h 0) b
+  let m := matchingSet h 0
+  (List.range 256).filter fun b => !bsMem m b
 
 end RgVerif.Rx
